@@ -179,6 +179,13 @@ PROPERTIES["C17"] = {
 
 # <<NEW-PROPERTIES>>
 
+# round-5 additions
+PROPERTIES["C10"]["rule"] += " 30% of the abandoned non-rule queries without literal streams are evaluated again (demand must be exact beyond what the first evaluation pulled)."
+PROPERTIES["C14"]["rule"] += " 5% of the prefixes are a long run (40-110) of operations that failed half-way."
+PROPERTIES["C16"]["rule"] += " Arguments of extend / update / += may be iterables that raise after their last element (the caller carries on)."
+PROPERTIES["C17"]["rule"] += " Op readd: add_node for a class the receiver already contains (a no-op)."
+PROPERTIES["C20"]["rule"] += " A cycle may end without an explicit sweep, with the evaluation of a query over an explicit domain of numbers instead."
+
 # round-4 additions to the workloads (DESIGN.md 8.5 / 8.7)
 PROPERTIES["C03"]["rule"] += " 20% of the rule queries are evaluated once (k results or all) BEFORE their rules are attached to the query object; the isolated reference always builds the query completely first."
 PROPERTIES["C14"]["rule"] += " In 35% of the prefix/suffix runs prefix operations FAIL half-way: the fault seam oworld.FAULT makes the k-th __hash__ call of a user object inside an assertion raise (sometimes the program retries), and constructors that assign a single-valued managed field do not complete; the suffix must still behave as on a fresh graph."
